@@ -650,6 +650,12 @@ func (ms *monitorState) explain(kt *keyTrack, after *MKey, ptrs []*Lock) {
 			if !o.After.equalLocks(after) {
 				continue
 			}
+			if len(before.Holders) == 0 && len(before.Waiters) == 0 && !before.Val.Exists && after.Val.Exists && !o.After.Val.Exists {
+				// C17: a key that nobody held or waited for and that had no value shows one after a step that
+				// writes none: the value of a finished key (this one's or another one's) has come back with the
+				// key manager the server handed to this key
+				ms.violate("C17", "value_of_finished_key_reappeared", "key %d db %d had no holder, no waiter and no value; after a step that writes no value (%s) it has the value %s: a finished key's value is still reachable", keyIndex(kt.id.key), kt.id.db, o.Note, after.Val)
+			}
 			if ac.name == "request" || ac.name == "wake" {
 				rq := o.SecondReq
 				if ac.rt != nil {
